@@ -200,7 +200,9 @@ func (m *model) discoverLoop() error {
 	m.enqPhi = m.armEnq.state.Chan
 	// counters via the State value handed to Emit
 	if err := m.discoverCounters(); err != nil {
-		return err
+		// not fatal: only the rules about the counters (S17 completion exit, S25, S26, S27) are undecided
+		m.counterErr = err.Error()
+		m.cPending, m.cOngoing, m.cWaiting = nil, nil, nil
 	}
 	return nil
 }
@@ -342,7 +344,7 @@ func (m *model) resolve(v ssa.Value) ssa.Value {
 		if !ok {
 			return v
 		}
-		c, ok := m.site[p.Parent()]
+		c, ok := m.bindSite[p.Parent()]
 		if !ok {
 			return v
 		}
